@@ -3,7 +3,12 @@
    whole life of the heap — creation, first-fit splitting, sweeps with all coalescing cases, growth, refusal
    to grow at max_size, out of memory — fits in a trace the extracted model replays from the first allocation.
    usage: embed_c10 <initial heap bytes> <max heap bytes|0> <operations> <seed> <table slots> <mode>
-   mode: 0 steady (bounded live set), 1 grow-then-drop cycles, 2 fill until out of memory then drop, repeat
+   mode: 0 steady (bounded live set), 1 grow-then-drop cycles, 2 fill until out of memory then drop, repeat,
+         3 growth stream: <operations> steps; each step requests one object LARGER than 4/3 of the last segment
+           (so that the request, not the last segment, decides the size of the new segment), with an odd or an even
+           number of allocation units, then fills the new segment TO ITS END with small live objects and collects, so
+           that the next sweep walks over the last byte of the segment (a segment size that is not a multiple of
+           the allocation unit leaves a tail that belongs to no chunk)
    The trace is written by the VERIF hooks (CHIBI_VERIF_TRACE, CHIBI_VERIF_SWEEPLOG). */
 #include <stdio.h>
 #include <stdlib.h>
@@ -13,6 +18,48 @@ static unsigned long long seed;
 static unsigned long rnd (unsigned long k) {
   seed = seed * 6364136223846793005ULL + 1442695040888963407ULL;
   return (unsigned long)((seed >> 33) % k);
+}
+
+static sexp_heap last_heap (sexp ctx) { sexp_heap h = sexp_context_heap(ctx); while (h->next) h = h->next; return h; }
+
+/* mode 3 */
+static int growth_stream (sexp ctx, sexp root, unsigned long steps) {
+  unsigned long step, len, k, unit = sexp_heap_align(1), units; sexp_heap h; sexp x; sexp_free_list q;
+  sexp_gc_var1(keep);
+  sexp_gc_preserve1(ctx, keep);
+  keep = SEXP_NULL;
+  for (step = 0; step < steps; step++) {
+    h = last_heap(ctx);
+    /* aligned size of the bytes object = align(sexp_sizeof(bytes) + len): choose len so that size/unit is odd on
+       even steps and even on odd steps, and size > 4/3 of the last segment */
+    units = (h->size + h->size / 3) / unit + 3 + rnd(5);
+    if ((units & 1) != ((step + 1) & 1)) units++;
+    len = units * unit - sexp_sizeof(bytes) - 8;
+    x = sexp_make_bytes(ctx, sexp_make_fixnum(len), sexp_make_fixnum(step));
+    if (!x || sexp_exceptionp(x)) { printf("growth stream: out of memory at step %lu\n", step); break; }
+    keep = sexp_cons(ctx, x, keep);
+    h = last_heap(ctx);
+    /* fill the last segment to its end: 30-slot vectors while it has a chunk of 4 KB or more, then pairs (first fit
+       serves the holes of the earlier segments first) until its free list is empty */
+    for (k = 0; k < 2000000 && h->free_list->next; k++) {
+      for (q = h->free_list->next; q && q->size < 4096; q = q->next) ;
+      x = q ? sexp_make_vector(ctx, sexp_make_fixnum(30), SEXP_VOID) : sexp_cons(ctx, SEXP_FALSE, SEXP_FALSE);
+      if (!x || sexp_exceptionp(x)) break;
+      keep = sexp_cons(ctx, x, keep);
+      if (last_heap(ctx) != h) break;           /* the heap grew while filling: go on with the next step */
+    }
+    sexp_gc(ctx, NULL);                          /* the sweep walks the filled segment up to its last byte */
+    if (step % 2 == 1 && sexp_pairp(keep)) {     /* drop the small objects of this step: the next sweep frees and coalesces the tail */
+      for (x = keep, k = 0; sexp_pairp(x) && k < 200; x = sexp_cdr(x), k++) ;
+      if (sexp_pairp(x)) sexp_cdr(x) = SEXP_NULL;
+      sexp_gc(ctx, NULL);
+    }
+  }
+  keep = SEXP_NULL;
+  sexp_gc(ctx, NULL);
+  for (k = 0; k < 3000; k++) sexp_vector_set(root, SEXP_ZERO, sexp_make_vector(ctx, sexp_make_fixnum(rnd(60)), SEXP_VOID));
+  sexp_gc_release1(ctx);
+  return 0;
 }
 
 int main (int argc, char **argv) {
@@ -30,6 +77,7 @@ int main (int argc, char **argv) {
   sexp_gc_preserve2(ctx, root, tmp);
   root = sexp_make_vector(ctx, sexp_make_fixnum(slots), SEXP_FALSE);
   if (sexp_exceptionp(root)) { fprintf(stderr, "no root table\n"); return 2; }
+  if (mode == 3) { growth_stream(ctx, root, n); n = 0; }
   for (i = 0; i < n; i++) {
     switch (rnd(10)) {
     case 0: tmp = sexp_cons(ctx, SEXP_NULL, SEXP_NULL); break;
